@@ -152,15 +152,26 @@ def run(ck):
         else:
             ck.count("known_witness_no_longer_fails:" + str(ident))
     # D21 on the crate only (the model's list-based maps are quadratic in the number of fields)
-    if any(k.get("id") == "D21" for k in known):
-        big = {"k": "rule", "id": 1, "rule": d21_rule(), "docs": [D({"g": "y0"})], "sw": [0, 8]}
-        out = lib.run_harness_only([big], "C01d21")
-        r = rulebase.parse_rule_line(out[1])
-        if r["load"] == "ok" and r["res"].get(8) == "x":
-            for k in known:
-                if k.get("id") == "D21":
-                    ck.known("D21", k["what"])
-        evals += 1
+    d21_known = any(k.get("id") == "D21" for k in known)
+    big = {"k": "rule", "id": 1, "rule": d21_rule(), "docs": [D({"g": "y0"}), D({"f77": "x"}), D({"g": "zz"}), D({})], "sw": [0, 8, 15]}
+    out = lib.run_harness_only([big], "C01d21")
+    r = rulebase.parse_rule_line(out[1])
+    if r["load"] == "ok":
+        base = r["res"].get(0, "")
+        for sw in (8, 15):
+            opt = r["res"].get(sw)
+            if opt is not None and fails(base, opt):
+                if d21_known and opt == "x":
+                    for k in known:
+                        if k.get("id") == "D21":
+                            ck.known("D21", k["what"])
+                else:
+                    ck.violation({"property": "C01", "kind": "direct",
+                                  "what": "an or-group over more than 55296 distinct fields: optimise() panics or the verdict changes with the matrix switch",
+                                  "rule": "(generated: %d single-field blocks f0..f55399 plus two blocks on g)" % 55400, "unoptimised": base, "optimised": opt,
+                                  "replay_case": {"generated": "props.C01.d21_rule()", "sw": [0, sw]}})
+                    direct_failed.add(-21)
+    evals += 1
 
     ck.coverage["evaluations"] = evals
     ck.coverage["distinct_nontrivial"] = len(nontrivial)
